@@ -126,6 +126,9 @@ type World struct {
 
 	Times  verify.TimeSet
 	NowNil bool // verify with Options.Now == nil (Times must then be the real current time)
+	// PoolExtra: certificates the relying party's trust bundle lists next to the root (people put whole chains, or a
+	// renewed issuing-CA certificate, into bundles); used by Options when no pool is given
+	PoolExtra []*Cert
 
 	// CrossIssuerSerials makes each CRL also list the serial numbers of the certificates the OTHER CA issued
 	// (the PCK CRL those of intermediate / signers / root, the root CRL that of the leaf): a serial number means
@@ -440,6 +443,9 @@ func (w *World) NewGetter() *Getter {
 func (w *World) Options(l Level, g *Getter, pool *x509.CertPool) *verify.Options {
 	if pool == nil {
 		pool = w.PKI.Pool()
+		if len(w.PoolExtra) > 0 {
+			pool = PoolOf(append([]*Cert{w.PKI.Root}, w.PoolExtra...)...)
+		}
 	}
 	ts := w.Times
 	o := &verify.Options{TrustedRoots: pool, Now: &ts}
@@ -518,7 +524,7 @@ func (w *World) CaseFile(l Level, raw []byte, resp map[string]Response, pool []*
 	}
 	var roots []string
 	if pool == nil {
-		pool = []*Cert{w.PKI.Root}
+		pool = append([]*Cert{w.PKI.Root}, w.PoolExtra...)
 	}
 	for _, c := range pool {
 		roots = append(roots, string(c.PEM))
